@@ -29,6 +29,7 @@ type Config struct {
 	Workers       int
 	Trace         bool
 	NoMerge       bool
+	InjectiveHash bool
 	InitPkgs      []string // package paths whose init is run (leniently) before each path
 	StopAtFirst   bool     // stop exploring a harness after its first violation of each label
 	Verbose       bool
